@@ -15,6 +15,7 @@ import (
 	"net/http/httptest"
 	"strings"
 	"sync"
+	"sync/atomic"
 	"time"
 
 	mcp "trpc.group/trpc-go/trpc-mcp-go"
@@ -37,6 +38,7 @@ type c19Scenario struct {
 	Ops    []string `json:"ops"`
 	Split  bool     `json:"split"` // the static headers are configured through two WithHTTPHeaders options
 	Query  bool     `json:"query"` // the configured URL carries a query string
+	Retry  bool     `json:"retry"` // the client is configured with retries and the first attempt of every call is answered 503
 }
 
 type c19Rec struct {
@@ -61,6 +63,8 @@ type c19Result struct {
 	ID     string  `json:"id"`
 	Ops    []c19Op `json:"ops"`
 	Broken string  `json:"broken,omitempty"`
+	// BeforeCalls: how often the before-request function was invoked during the scenario
+	BeforeCalls int64 `json:"before_calls"`
 }
 
 type c19CtxKey struct{}
@@ -80,6 +84,8 @@ type c19Srv struct {
 	answered  chan struct{}
 	refuseDel bool
 	lateSid   bool
+	failFirst bool // answer the first attempt of a tools/call with 503
+	failed    map[string]bool
 	done      chan struct{}
 }
 
@@ -209,6 +215,19 @@ func (s *c19Srv) serve(w http.ResponseWriter, r *http.Request) {
 		default:
 		}
 	case "request":
+		if s.failFirst && method != "initialize" {
+			s.mu.Lock()
+			first := !s.failed[string(id)]
+			if s.failed == nil {
+				s.failed = map[string]bool{}
+			}
+			s.failed[string(id)] = true
+			s.mu.Unlock()
+			if first {
+				w.WriteHeader(503)
+				return
+			}
+		}
 		var ans string
 		if method == "initialize" {
 			ans = fmt.Sprintf(`{"jsonrpc":"2.0","id":%s,"result":%s}`, id, initOK)
@@ -237,7 +256,7 @@ func (c19Handler) Handle(ctx context.Context, client *http.Client, req *http.Req
 
 func c19Run(sc c19Scenario) (res c19Result) {
 	res.ID = sc.ID
-	srv := &c19Srv{lateSid: sc.Cfg.LateSid, legacy: sc.Client == "legacy", streamUp: make(chan struct{}), answered: make(chan struct{}, 4), done: make(chan struct{}), handshake: "op:initialize"}
+	srv := &c19Srv{failFirst: sc.Retry, lateSid: sc.Cfg.LateSid, legacy: sc.Client == "legacy", streamUp: make(chan struct{}), answered: make(chan struct{}, 4), done: make(chan struct{}), handshake: "op:initialize"}
 	ts := httptest.NewServer(http.HandlerFunc(srv.serve))
 	defer func() { close(srv.done); closeClientConns(ts); closeTS(ts) }()
 	info := mcp.Implementation{Name: "v", Version: "0"}
@@ -252,6 +271,9 @@ func c19Run(sc c19Scenario) (res c19Result) {
 	if sc.Cfg.Handler {
 		opts = append(opts, mcp.WithHTTPReqHandler(c19Handler{}))
 	}
+	if sc.Retry {
+		opts = append(opts, mcp.WithRetry(mcp.RetryConfig{MaxRetries: 2, InitialBackoff: time.Millisecond, BackoffFactor: 1, MaxBackoff: 2 * time.Millisecond}))
+	}
 	if sc.Cfg.Before != "none" {
 		opts = append(opts, mcp.WithHTTPBeforeRequest(func(ctx context.Context, req *http.Request) error {
 			var body []byte
@@ -260,6 +282,7 @@ func c19Run(sc c19Scenario) (res c19Result) {
 					body, _ = io.ReadAll(rc)
 				}
 			}
+			atomic.AddInt64(&res.BeforeCalls, 1)
 			if sc.Cfg.Before == "err" && kindOf(req, body, sc.Client == "legacy") == sc.Cfg.ErrAt {
 				return errC19Before
 			}
